@@ -41,6 +41,8 @@ type mtCase struct {
 	Kind     string `json:"kind"`               // intrude, impostor
 	Impostor string `json:"impostor,omitempty"` // othercert (default), nocert
 	Proto    string `json:"proto"`
+	// TCP: the impostor announces a TCP address (connections are passed on to the socket it really serves on)
+	TCP bool `json:"tcp,omitempty"`
 }
 
 type mtAttempt struct {
@@ -244,6 +246,9 @@ func runMTLSCase(c mtCase, bin, tmp string) map[string]interface{} {
 			extra = append(extra, "VPLUGIN_IMPOSTOR_STATE="+filepath.Join(tmp, c.Name+".state"))
 		}
 		extra = append(extra, "VPLUGIN_IMPOSTOR="+mode)
+		if c.TCP {
+			extra = append(extra, "VPLUGIN_IMPOSTOR_TCP=1")
+		}
 	}
 	p := vp.NewPair(bin, hc, pc, extra, nil)
 	if c.Kind == "impostor" && c.Impostor == "replay" {
